@@ -24,6 +24,24 @@ Theorem C13_trip_hash_prefix_free : forall a b r r', wf_trip a -> wf_trip b ->
 Proof. exact trip_hash_prefix_free. Qed.
 Print Assumptions C13_trip_hash_prefix_free.
 
+Theorem C13_vehicle_hash_prefix_free : forall a b r r', wf_vehicle a -> wf_vehicle b ->
+  hash_vehicle a ++ r = hash_vehicle b ++ r' -> erase_vehicle a = erase_vehicle b /\ r = r'.
+Proof. exact vehicle_hash_prefix_free. Qed.
+Print Assumptions C13_vehicle_hash_prefix_free.
+
+(* any number of trips / vehicles hashed back to back into one hash.Hash: the stream fixes the data of each, in order *)
+Theorem C13_trips_hash_sequence : forall xs ys r r', Forall wf_trip xs -> Forall wf_trip ys -> length xs = length ys ->
+  concat (map hash_trip xs) ++ r = concat (map hash_trip ys) ++ r' -> map erase_trip xs = map erase_trip ys /\ r = r'.
+Proof. exact trips_hash_sequence. Qed.
+Print Assumptions C13_trips_hash_sequence.
+Theorem C13_vehicles_hash_sequence : forall xs ys r r', Forall wf_vehicle xs -> Forall wf_vehicle ys -> length xs = length ys ->
+  concat (map hash_vehicle xs) ++ r = concat (map hash_vehicle ys) ++ r' -> map erase_vehicle xs = map erase_vehicle ys /\ r = r'.
+Proof. exact vehicles_hash_sequence. Qed.
+Print Assumptions C13_vehicles_hash_sequence.
+Theorem C13_vehicle_flush_discipline : forall v, hash_vehicle v = enc c_vehicle (ve_data v).
+Proof. exact hash_vehicle_stream. Qed.
+Print Assumptions C13_vehicle_flush_discipline.
+
 (* what is ignored: zone presentation of equal instants, the in-message flag, Trip.Vehicle / Vehicle.Trip key *)
 Theorem C13_trip_hash_ignores : forall t, hash_trip (erase_trip t) = hash_trip t.
 Proof. exact trip_hash_ignores. Qed.
